@@ -114,9 +114,11 @@ prop("C14", NEC + "Clauses: the call statement is located with node, origin and 
 
 prop("C15", NEC + "Clauses: legend order = enum discriminants (T6); token positions of different units/frames are not "
      "compared and declaration slices are cut in the right frame (FRAME in semantic_tokens.rs); token lengths are UTF-16 "
-     "(LEN-UNITS); the delta base advances exactly when a token is emitted (SEMTOK-PAIRING).",
+     "(LEN-UNITS); the delta base advances exactly when a token is emitted (SEMTOK-PAIRING); identifiers inside a procedure are "
+     "classified through the local-then-global LookupTable (SCOPE-ORDER).",
      [{"rule": "TABLES-SEMTOK", "floor": 11}, {"rule": "FRAME", "filter": files("semantic_tokens.rs"), "floor": 7},
-      {"rule": "LEN-UNITS", "filter": tag("lsp"), "floor": 1}, {"rule": "SEMTOK-PAIRING", "floor": 6}])
+      {"rule": "LEN-UNITS", "filter": tag("lsp"), "floor": 1}, {"rule": "SEMTOK-PAIRING", "floor": 6},
+      {"rule": "SCOPE-ORDER", "floor": 18}])
 
 prop("C16", NEC + "Clauses: every token slice / node pair that drives the position classification is in one frame (FRAME "
      "in completion.rs); variables are proposed from the LookupTable of the procedure that contains the cursor (SCOPE-ORDER).",
@@ -124,8 +126,10 @@ prop("C16", NEC + "Clauses: every token slice / node pair that drives the positi
 
 prop("C17", NEC + "Clause: the procedure's token range is made absolute with the offset of the Reference it was reached "
      "through before the token vector is sliced (FRAME in fold.rs); the lines reported come from as_pos_range of the "
-     "procedure's byte range (POS-CONV).",
-     [{"rule": "FRAME", "filter": files("fold.rs"), "floor": 2}, {"rule": "POS-CONV", "floor": 22}])
+     "procedure's byte range (POS-CONV); exactly the Procedure declarations are kept, each mapped 1:1, nothing removed "
+     "afterwards (ONE-PER-ITEM).",
+     [{"rule": "FRAME", "filter": files("fold.rs"), "floor": 2}, {"rule": "POS-CONV", "floor": 22},
+      {"rule": "ONE-PER-ITEM", "floor": 3}])
 
 prop("C18", NEC + "Clauses: every path through every Request arm of the three phase loops splits the request, "
      "turns the PreparedResponse into exactly one Response and sends it; phase x situation -> error code table; "
@@ -135,8 +139,9 @@ prop("C18", NEC + "Clauses: every path through every Request arm of the three ph
       {"rule": "SEND-AWAIT", "floor": 11}])
 
 prop("C19", NEC + "Clauses: decode consumes nothing before its last `Ok(None)`, slices the body only behind the "
-     "length guard and advances by exactly content_end; encode writes String::len() (bytes) of the body it writes.",
-     [{"rule": "CODEC", "floor": 7}])
+     "length guard and advances by exactly content_end; encode writes String::len() (bytes) of the body it writes; one "
+     "FramedRead (and thus one read buffer) serves the whole session.",
+     [{"rule": "CODEC", "floor": 7}, {"rule": "WHO-MAY", "filter": tag("framed"), "floor": 1}])
 
 prop("C20", NEC + "Clauses: diagnostics only under `if send_diagnostics`, once per Open/Change; Close removes; "
      "document map keyed by an injective function of the URI; no task spawned per request; every channel send is "
